@@ -4,7 +4,7 @@ CONSTANTS
   RLCounts = {1}
   RLMaxRuns = 1
   SmallLen = 3
-  LzwLens = {254, 255, 256, 257, 258}
+  LzwLens = {255, 256, 257, 258, 262}
   BREAK = "lzwwidth"
 INVARIANTS LZWOK
 CHECK_DEADLOCK FALSE
